@@ -47,6 +47,21 @@ def _is_known_type_enum(value: object) -> bool:
     return value in (1, 2, 3, 4, 5, 6, "pay", "keyreg", "acfg", "axfer", "afrz", "appl")
 
 
+def _typeenum_values(
+    compared_type: "TealerTransactionType",
+) -> Tuple[Set["TealerTransactionType"], Set["TealerTransactionType"]]:
+    """Values when `TypeEnum == compared_type` is true and when it is false.
+
+    An application call is represented by `Appl` and by one of the more specific application types.
+    """
+    all_types = set(TYPEENUM_TRANSACTION_TYPES) | set(APPLICATION_TRANSACTION_TYPES)
+    if compared_type == TealerTransactionType.Appl:
+        true_values = set([compared_type]) | set(APPLICATION_TRANSACTION_TYPES)
+    else:
+        true_values = set([compared_type])
+    return true_values, all_types - true_values
+
+
 def _is_known_on_completion(value: object) -> bool:
     return value in (
         0,
@@ -184,16 +199,12 @@ class TxnType(DataflowTransactionContext):  # pylint: disable=too-few-public-met
                 if not _is_known_type_enum(value_3):
                     return set(U), set(U)
                 compared_type = transaction_type_to_tealer_type(value_3)
-                true_values, false_values = set([compared_type]), set(
-                    TYPEENUM_TRANSACTION_TYPES
-                ) - set([compared_type])
+                true_values, false_values = _typeenum_values(compared_type)
             elif is_value_matches_key(key, arg2, TypeEnum) and value_2 is not None:
                 if not _is_known_type_enum(value_2):
                     return set(U), set(U)
                 compared_type = transaction_type_to_tealer_type(value_2)
-                true_values, false_values = set([compared_type]), set(
-                    TYPEENUM_TRANSACTION_TYPES
-                ) - set([compared_type])
+                true_values, false_values = _typeenum_values(compared_type)
 
             if is_value_matches_key(key, arg1, OnCompletion) and value_3 is not None:
                 if not _is_known_on_completion(value_3):
